@@ -189,7 +189,7 @@ OpOk(e) ==
     [] e.op = "Point.SetBytes" ->
          LET s == BufBytes(a(1))  acc == DecodeOK(s) IN
          C("C04", "accept.iff", (e.err = 0) <=> acc)
-         \cup Setter(e, acc, V(e, "C04", "value", ~Uninit(rpost) /\ ValidP3(PR(rpost)) /\ IsDecodeOf(PA(rpost), s)))
+         \cup Setter(e, acc, V(e, "C04", "value", acc => (~Uninit(rpost) /\ ValidP3(PR(rpost)) /\ IsDecodeOf(PA(rpost), s))))
          \cup InputUnchanged(e)
     [] e.op = "Point.Bytes" ->
          LET o == e.post[e.outs[1]] IN
